@@ -22,18 +22,19 @@ def main():
             print(r.stdout[-4000:])
             return 1
     buildmod.build("plain", None, ["c06_parallel"], True)   # complex-matrix-element flavour (part of the C06 quick check)
-    tb = buildmod.build("tsan", None, ["c06_omp_tsan", "omp_threads_selftest"])   # ThreadSanitizer probe of the OpenMP region (single inline rank, real threads)
+    tb = buildmod.build("tsan", None, ["c06_omp_tsan", "c17_workflow", "omp_threads_selftest"])   # ThreadSanitizer probe of the OpenMP region (single inline rank, real threads)
     r = subprocess.run([tb["omp_threads_selftest"]], stdout=subprocess.PIPE, stderr=subprocess.STDOUT, text=True)
     print("[setup] tsan: %s" % (r.stdout.strip().splitlines()[-1] if r.stdout.strip() else "(no output)"))
     if r.returncode != 0:
         print(r.stdout[-4000:]); return 1
     # the same real-thread teams without instrumentation, for helgrind (second race detector of the C06 check); SimGOMP's own
     # thread-mode primitives (barrier, single, work-sharing loops, sections, critical) must be silent under it
-    hb = buildmod.build("thr", None, ["c06_omp_tsan", "omp_threads_selftest"])
+    hb = buildmod.build("thr", None, ["c06_omp_tsan", "c17_workflow", "omp_threads_selftest"])
     r = subprocess.run(vlib_helgrind() + [hb["omp_threads_selftest"]], stdout=subprocess.PIPE, stderr=subprocess.STDOUT, text=True)
     print("[setup] helgrind: %s" % (r.stdout.strip().splitlines()[-1] if r.stdout.strip() else "(no output)"))
     if r.returncode != 0:
         print(r.stdout[-4000:]); return 1
+    buildmod.build("sancl", None, ["c17_workflow", "c06_parallel"])   # clang's ASan/UBSan flavour (part of the C17 quick check)
     r = subprocess.run([sys.executable, os.path.join(buildmod.VERIF, "tools", "selftest.py"), "--quick"])
     if r.returncode != 0:
         return 1
